@@ -11,6 +11,7 @@ def configs(tier):
         ('documents: root attributes 2docs x 3 slots', dict(family='root_level', fam_kw=dict(docs=2, slots=0, attrs=3, text=False, leaf_form=False, root_form=False, pool=3))),
         ('children whose byte order differs from the order of their PascalCase forms: 2occ x 2slots', dict(family='one_level', fam_kw=dict(occ=2, slots=2, attrs=0, text=False, leaf_form=False, p_form=False, names=['Beta', 'alpha', 'item-b', 'item_a']))),
         ('attributes whose byte order differs from the order of their snake_case forms: 2occ x 2 attribute slots', dict(family='one_level', fam_kw=dict(occ=2, slots=0, attrs=2, text=False, leaf_form=False, p_form=False, anames=['Beta', 'alpha', 'b-x', 'b_a']))),
+        ('prefixed attributes whose order by local name differs from the order by full name: 2occ x 3 attribute slots', dict(family='one_level', fam_kw=dict(occ=2, slots=0, attrs=3, text=False, leaf_form=False, p_form=False, anames=['b:x', 'name', 'a:y', 'c:id']))),
         ('struct order: 2occ x 2slots x 1grandchild', dict(family='one_level', fam_kw=dict(occ=2, slots=2, gslots=1, attrs=0, text=False, leaf_form=False, p_form=False, pool=2, gpool=2))),
         ('serde_xml_rs is out of scope for attribute grouping; mixed attrs+children+text 2occ', dict(family='one_level', fam_kw=dict(occ=2, slots=1, attrs=2, text=True, leaf_form=False, p_form=False, pool=2))),
     ]
